@@ -119,6 +119,40 @@ theorem C18_zero_shift_identity {K : Type} [Field K] [LinearOrder K] [IsStrictOr
     exact this im.shape p hp
   rw [C18_integer_shift_exact h m cval im p _ hs hnn, shiftPos_zero m im.shape p hp]
 
+/-- **C18-T2 (unit zoom).** A unit zoom (output shape = input shape, the factor `(n−1)/(n−1)`, or 1 for a
+one-sample axis) at order 1 returns the input: every pixel inside the array, in any dimension and every
+border mode, through the `zoom` glue and the whole `zoom_shift` model. -/
+theorem C18_unit_zoom_identity {K : Type} [Field K] [LinearOrder K] [IsStrictOrderedRing K]
+    {fl : K → Int} (h : IsFloor fl) (m : Mode) (cval : K) (im : Img K) (p : List Int)
+    (hp : inside im.shape p = true) :
+    pixel fl 1 m cval im (im.shape.map fun _ => (none : Option K))
+        ((im.shape.zip im.shape).map fun io => some (zoomFactor io.1 io.2 : K)) p = im.getD p 0 := by
+  unfold pixel
+  rw [go_unit h m im.shape p hp]
+  have e : (p.zip im.shape).map (fun jl => ([jl.1, edgeFold jl.2 (jl.1 + 1)], [(1 : K), 0]))
+      = ((p.zip im.shape).map fun jl => (jl.1, edgeFold jl.2 (jl.1 + 1))).map
+          fun ij => ([ij.1, ij.2], [(1 : K), 0]) := by
+    simp [List.map_map]
+  simp only [e]
+  rw [tensorSum_delta]
+  have hl : ∀ (shape : List Nat) (p : List Int), inside shape p = true →
+      ((p.zip shape).map fun jl => jl.1) = p := by
+    intro shape
+    induction shape with
+    | nil => intro p hp; cases p <;> simp_all [inside]
+    | cons len ls ih =>
+      intro p hp
+      cases p with
+      | nil => simp
+      | cons kk ks =>
+        simp only [inside, Bool.and_eq_true, decide_eq_true_eq] at hp
+        simp [ih ks hp.2]
+  simp only [List.map_map]
+  have : ((fun ij : Int × Int => ij.1) ∘ fun jl : Int × Nat => (jl.1, edgeFold jl.2 (jl.1 + 1)))
+      = fun jl : Int × Nat => jl.1 := by funext jl; rfl
+  rw [this, hl im.shape p hp]
+  simp
+
 /-- **C18-T2 (orders 2–4 at integer coordinates).** At an integer coordinate the weights of orders 2, 3, 4
 are the B-spline sampled at the integers — `(1/8, 3/4, 1/8)`, `(1/6, 2/3, 1/6, 0)`,
 `(1/384, 19/96, 115/192, 19/96, 1/384)` — centred on that coordinate: what `shift`/`zoom` return at
